@@ -47,8 +47,11 @@ def gen_cases(rng, tier, count=None):
             c["queries"] = sorted(int(x) for x in rng.integers(1, T, size=int(rng.integers(0, 4))))
             if a_is_stroquool(c):
                 # the validation phase is short and early (rounds ~45-62 of n = 1000): ask after every round; queries
-                # before a candidate exists raise (known finding of C01) and are skipped
-                c["queries"] = list(range(min(T, 400)))
+                # before a candidate exists raise (known finding of C01) and are skipped.  Every second run asks at
+                # most three times instead: a query makes the algorithm recompute lazily cached means, so asking after
+                # every round would hide a stale cache from the final recommendation (seeded change C07b)
+                if rng.random() < 0.5:
+                    c["queries"] = list(range(min(T, 400)))
                 c["tolerate_query_errors"] = True
             if C.family(c["algo"]) == "GPO":
                 H = C.gpo_N_H(c["n"], c["params"]["rhomax"])[1]
@@ -73,5 +76,5 @@ def run_case(case):
         mons, lc, cm = TS.monitors_for(case, with_tree=False)
     else:
         mons, lc, cm = [RecoMon()], None, None
-    ctx = drive(case, mons, learner_cls=lc, build_cm=cm)
+    ctx = drive(case, mons, learner_cls=lc, build_cm=cm, own=PROP)
     return result_of(ctx, mons, prefix=PROP, nontrivial=nontrivial)
